@@ -60,6 +60,8 @@ LEN_MODELS.update({
 
 def run(chk):
     w = C.world_for(chk)
+    from . import ctors as _acc
+    _acc.accessors(chk, w, only=["vaporetto::sentence::"])
     chk.rule("R05.1", "every Sentence field is killed on every Ok path of update_* and on every path of the reset")
     chk.rule("R05.2", "Err paths of update_* end in the full reset; from_* literals start with empty scores/padding 0/no predictor")
     chk.rule("R05.3", "tags length form == n_tags form * len() at every exit of a function that changes either")
